@@ -468,6 +468,7 @@ var specC28 = vstat.Spec[c28Case]{
 	Gen:         genC28,
 	Check:       checkC28,
 	Inflight:    true,
+	Confirm:     true,
 }
 
 var specC28Ctl = vstat.Spec[c28Case]{
@@ -478,6 +479,7 @@ var specC28Ctl = vstat.Spec[c28Case]{
 	Gen:         genC28Ctl,
 	Check:       checkC28,
 	Inflight:    true,
+	Confirm:     true,
 }
 
 func TestC28Ctl(t *testing.T)       { vstat.Check(t, specC28Ctl) }
